@@ -154,4 +154,35 @@ theorem covBasisGrid_eq (N K m : ℕ) (c Φ : ℕ → ℕ → ℚ) (j j' : ℕ) 
   apply Finset.sum_congr rfl; intro y _
   ring
 
+theorem integrate2_sum (m₁ m₂ N : ℕ) (t₁ t₂ : ℕ → ℚ) (f : ℕ → ℕ → ℕ → ℚ) :
+    integrate2 m₁ m₂ t₁ t₂ (fun a b => ∑ i ∈ range N, f i a b) =
+      ∑ i ∈ range N, integrate2 m₁ m₂ t₁ t₂ (f i) := by
+  unfold integrate2
+  simp_rw [trapz_sum']
+
+theorem integrate2_smul (m₁ m₂ : ℕ) (t₁ t₂ : ℕ → ℚ) (f : ℕ → ℕ → ℚ) (c : ℚ) :
+    integrate2 m₁ m₂ t₁ t₂ (fun a b => c * f a b) = c * integrate2 m₁ m₂ t₁ t₂ f := by
+  unfold integrate2
+  simp_rw [trapz_smul']
+
+/-- 2-D: the product-quadrature inner product of two evaluated surfaces is the bilinear
+form of the 2-D Gram matrix of the basis. -/
+theorem inner2_toGrid (K m₁ m₂ : ℕ) (t₁ t₂ : ℕ → ℚ) (c d Φ : ℕ → ℕ → ℚ) (i l : ℕ) :
+    inner2 m₁ m₂ t₁ t₂ (fun a b => toGrid K c Φ i (a * m₂ + b)) (fun a b => toGrid K d Φ l (a * m₂ + b)) =
+      ∑ x ∈ range K, ∑ y ∈ range K, c i x * basisGram2 m₁ m₂ t₁ t₂ Φ x y * d l y := by
+  unfold inner2 basisGram2 inner2 toGrid
+  have : (fun a b => (∑ k ∈ range K, c i k * Φ k (a * m₂ + b)) * (∑ k ∈ range K, d l k * Φ k (a * m₂ + b)))
+       = fun a b => ∑ x ∈ range K, ∑ y ∈ range K, (c i x * d l y) * (Φ x (a * m₂ + b) * Φ y (a * m₂ + b)) := by
+    funext a b
+    rw [Finset.sum_mul_sum]
+    apply Finset.sum_congr rfl; intro x _
+    apply Finset.sum_congr rfl; intro y _
+    ring
+  rw [this, integrate2_sum]
+  apply Finset.sum_congr rfl; intro x _
+  rw [integrate2_sum]
+  apply Finset.sum_congr rfl; intro y _
+  rw [integrate2_smul]
+  ring
+
 end FDA
